@@ -162,15 +162,23 @@ func (in *inst) handed(l *lowStore, op, arg string, b []byte, isName bool) {
 	if sc == nil || len(b) == 0 {
 		return
 	}
-	in.r.Note("leak_monitor", "handed/"+l.name+"/"+op+"/"+arg)
+	in.argMu.Lock()
+	if in.argSeen == nil {
+		in.argSeen = map[string]bool{}
+	}
+	key := "handed/" + l.name + "/" + op + "/" + arg
+	noted := in.argSeen[key]
+	in.argSeen[key] = true
+	seen := false
 	if isName {
-		in.argMu.Lock()
-		if in.argSeen == nil {
-			in.argSeen = map[string]bool{}
-		}
-		seen := in.argSeen[string(b)]
+		seen = in.argSeen[string(b)]
 		in.argSeen[string(b)] = true
-		in.argMu.Unlock()
+	}
+	in.argMu.Unlock()
+	if !noted {
+		in.r.Note("leak_monitor", key) // once per store instance
+	}
+	if isName {
 		if seen {
 			return
 		}
